@@ -220,7 +220,7 @@ class SMUserList(UserList, ABC):
                 converter = getattr(arg.__class__, type(self).__name__)
             except AttributeError:
                 raise ValueError('argument has no conversion method to this type') from None
-            self.data = [converter(arg).A]
+            self.data = copy.copy(converter(arg).data)
 
         else:
             # don't know this argument, let object __init__ deal with it
